@@ -75,6 +75,8 @@ def configs(rng, tier):
     out.append({"components": [dev("qs"), dev("qk", {"i": ["qs", "o"]})]})
     out.append({"components": [dev("qa"), {"name": "qsys", "kind": "sys", "inputs": {"x": ["qa", "o"]}, "expose": {"y": ["qi", "o"]},
                                            "components": [dev("qi", {"i": ["external", "x"]}), dev("qj")]}, dev("qz", {"i": ["qsys", "y"]})]})
+    # independent devices (no wire between them), nothing asks for a callback
+    out.append({"components": [dev("ia"), dev("ib"), dev("ic", {"i": ["ia", "o"]}), dev("id", {"i": ["ib", "o"]})]})
     if tier == "thorough":
         for _ in range(8):
             out.append(S.gen_nested(rng, depth=2, max_n=6))
@@ -193,6 +195,50 @@ def run(tier, seed, drv):
                         if rep is None or sorted(pyrep["stopped"]) != rep["stopped"] or pyrep["errored"] != rep["errored"]:
                             res.diverge(f"fail-stop model driver/python rendering differ: {rep} vs {pyrep}", case)
                         analyse(s2, run_, target, n, hook, res, case, rep=dict(pyrep, source=(rep or {}).get("source")))
+    # TWO components failing in the same tick (their n-th updates): the scheduler receives two reports for one tick;
+    # the run must still return, with the error flag set, reporting one of the two, and never tick again
+    import itertools
+    for ci, scn in enumerate(configs(rng, "quick")):
+        devs = [d["name"] for d in S.devices(scn)]
+        rank = S.device_rank(scn) or {}
+        pairs = list(itertools.combinations(devs, 2))
+        rng.shuffle(pairs)
+        # pairs of the same rank first: neither is downstream of the other, so both really are updated in one tick
+        pairs.sort(key=lambda p_: rank.get(p_[0]) != rank.get(p_[1]))
+        for (t1, t2) in pairs[: (3 if tier == "quick" else 10)]:
+            for n in (0, 1):
+                for b in ("sync", "held"):
+                    s2 = copy.deepcopy(scn)
+                    for d in S.devices(s2):
+                        if d["name"] in (t1, t2):
+                            d["beh"]["fail_at"] = n
+                    sd = rng.randrange(1 << 30)
+                    run_ = run_with_simulation(s2, b, sd)
+                    case = {"scenario": s2, "bus": b, "held_seed": sd, "targets": [t1, t2], "n": n, "hook": "device", "double": True}
+                    excs = [e for e in run_["trace"].of("produce") if e["msg"]["m"] == "ComponentException"]
+                    both = {e["msg"]["source"] for e in excs} >= {t1, t2}
+                    res.case(f"double:{ci}:{t1}:{t2}:{n}:{b}", nontrivial=bool(excs))
+                    res.count("double-failure-both-reported" if both else ("double-failure-one-reported" if excs else "failure-point-not-reached"))
+                    if not excs:
+                        continue
+                    if run_["result"][0] != "ok" or not run_["info"].get("returned"):
+                        res.violate(V("run-did-not-return", f"after {t1} and {t2} failed at their update #{n} TickitSimulation.run did not return ({run_['result'][0]}, {run_['steps']} loop steps)",
+                                      site="TickitSimulation.run", hook="device", double=True), case)
+                        continue
+                    if not run_["info"].get("sched_error"):
+                        res.violate(V("error-flag-not-set", f"run returned but the master's error flag is not set after {t1} and {t2} failed", site="MasterScheduler"), case)
+                    tops = {c["name"] for c in s2["components"]}
+                    at_master = [e for e in excs if any(e["topic"] == f"tickit-{t}-out" for t in tops)]
+                    if not at_master:
+                        res.violate(V("exception-not-reported-to-master", f"no ComponentException reached a top-level output topic after {t1} and {t2} failed", site="bus"), case)
+                    elif at_master[0]["msg"]["source"] not in (t1, t2) or "probe" not in at_master[0]["msg"]["error"]:
+                        res.violate(V("identity-lost", f"master saw {at_master[0]['msg']} for failures of {t1} and {t2}", site="bus"), case)
+                    if at_master:
+                        tid = monitors.master_tid(run_)
+                        later = [e for e in run_["trace"].of("t-call") if e["tid"] == tid and e["n"] > at_master[-1]["n"] + 40]
+                        if later:
+                            res.violate(V("ticked-after-failure", f"master started tick @{later[0]['time']} after the failures of {t1} and {t2} were reported", site="MasterScheduler", double=True), case)
+                    res.traces_validated += 1
     # late starts: the failing component comes up after the scheduler's first Input (replayed on
     # subscription); everything must still be stopped and every task must complete
     from sim import run_scenario
@@ -218,7 +264,7 @@ def run(tier, seed, drv):
                                       site="late-start", hook=hook, depth=S.depth_map(scn).get(target)), case)
     res.rule = ("3 configurations (flat diamond; system with two inner devices between source and sink; depth-2 nesting with exposed chain) [+ generated "
                 "nestings in the thorough tier]; every device x n-th update (0..2 / 0..3) x {Device.update raises, adapter after_update raises} x "
-                "{synchronous bus, seeded delaying bus}; the simulation is run through the real TickitSimulation.run() under the virtual clock with a "
+                "{synchronous bus, seeded delaying bus}; pairs of devices failing in the same tick; the simulation is run through the real TickitSimulation.run() under the virtual clock with a "
                 "step budget; non-trivial = the failure point was reached")
     return res
 
@@ -233,5 +279,9 @@ def replay(payload, drv):
         return {"stop": run_["info"].get("stop"), "pending": pend,
                 "violations": [V("run-did-not-return", str(pend))] if (pend or run_["info"].get("stop") != "tasks-done") else []}
     run_ = run_with_simulation(c["scenario"], c.get("bus", "sync"), c.get("held_seed", 0))
+    if c.get("double"):
+        ok = run_["result"][0] == "ok" and run_["info"].get("returned") and run_["info"].get("sched_error")
+        return {"returned": run_["info"].get("returned"), "sched_error": run_["info"].get("sched_error"),
+                "violations": [] if ok else [V("run-did-not-return", f"{run_['result'][0]} after {c['targets']} failed", site="TickitSimulation.run")]}
     analyse(c["scenario"], run_, c["target"], c["n"], c["hook"], res, c)
     return {"violations": [v["record"] for v in res.violations], "divergences": res.divergences[:3]}
